@@ -254,7 +254,7 @@ pub fn run(args: &Args) {
         report.violations(viol);
         report.finish(args)
     }
-    let max_n = if thorough { 64 } else { 16 };
+    let max_n = if thorough { 256 } else { 64 };
     let cat: Vec<Arc<Shape>> = catalogue(if thorough { 2 } else { 1 }).into_iter().filter(|s| s.n <= max_n && s.width() <= 17 && Cfg::base(Fid::F64, Hid::Blake3_256).valid_for(s).is_ok()).collect();
     for (fname, fid) in [("f64", Fid::F64), ("f128", Fid::F128), ("f62", Fid::F62)] {
         let outs = mck::par_map(cat.len(), |i| match fid {
